@@ -1073,7 +1073,16 @@ func (a *allowerContext) newMembershipAllower(authEvents AuthEventProvider, even
 	}
 	// If this event comes from a third_party_invite, we need to check it against the original event.
 	if m.newMember.ThirdPartyInvite != nil {
-		token := m.newMember.ThirdPartyInvite.Signed.Token
+		// StateNeededForAuth does not name a third-party-invite event when there
+		// is no token ("the event will be rejected when the actual checks
+		// encounter the same error"): this is that check. Going on to look up
+		// the event whose state key is "" would make the verdict depend on
+		// state that was never asked for.
+		var token string
+		if token, err = thirdPartyInviteToken(m.newMember.ThirdPartyInvite); err != nil {
+			err = errorf("could not get third-party token: %s", err)
+			return
+		}
 		if m.thirdPartyInvite, err = NewThirdPartyInviteContentFromAuthEvents(authEvents, token); err != nil {
 			return
 		}
